@@ -201,7 +201,8 @@ def check(prop, tier, seed):
             if gc_.get('status_validation'):
                 notes.append('generated-model tie (function classes): ' + gc_['status_validation'])
         for key_, fn_, props_ in (('plottable_data', gentie.gen_tie_plottable, ('C11',)), ('isi_lengths', gentie.gen_tie_isi_lengths, ('C15',)),
-                                  ('interval_lists', gentie.gen_tie_interval_lists, ('C05', 'C10', 'C11'))):
+                                  ('interval_lists', gentie.gen_tie_interval_lists, ('C05', 'C10', 'C11')),
+                                  ('spikes_helpers', gentie.gen_tie_api, ('C13', 'C20'))):
             if prop in props_:
                 try:
                     gen_res[key_] = fn_(tier, random.Random(seed * 43 + 17))
@@ -390,7 +391,8 @@ PYX_STRIDE = {'C07': 3, 'C18': 2}
 # hooks filled by other modules (pyx backend, op sequences, …)
 EXTRA = {}
 KNOWN_EXTRA = {}
-PROP_TRUST = {}
+_API_TRUST = ['Gen/Api.lean (reconcile_spike_trains, reconcile_spike_trains_bi, merge_spike_trains generated from pyspike/spikes.py by harness/py2lean_api.py): trusted there are that translator and Gen/PreludeApi.lean, which MODELS the SpikeTrain constructor and np.unique / np.sort / np.concatenate / min / max by their documented meaning; validated on every run against the real functions (coverage.generated_model.spikes_helpers)']
+PROP_TRUST = {'C13': _API_TRUST, 'C20': _API_TRUST}
 
 
 def replay(path):
